@@ -1,7 +1,7 @@
 (* C20 -- TFTP packets survive a serialise/parse round trip and obey the format.
    Only statements here; proofs in Tftp/PacketProofs.v. *)
 From Coq Require Import List NArith ZArith Bool.
-From NV Require Import Lib.Res Lib.PyInt Gen.Tftp Tftp.Packet Tftp.PacketProofs.
+From NV Require Import Lib.Res Lib.PyInt Gen.Tftp Tftp.Packet Tftp.PacketProofs Tftp.PacketProofs2.
 Import ListNotations.
 Open Scope N_scope.
 
@@ -23,6 +23,19 @@ Theorem C20_parse_serialize : forall p,
   nf p = true -> exists b, serialize p = Ok b /\ parse b = Ok (strs_packet p).
 Proof. exact parse_serialize. Qed.
 Print Assumptions C20_parse_serialize.
+
+(* second direction, for EVERY datagram: if it parses and the packet can be serialised, the
+   re-serialised datagram parses to the same packet (block numbers, error codes, payload kept) *)
+Theorem C20_serialize_parse : forall d p b,
+  parse d = Ok p -> serialize p = Ok b -> parse b = Ok p.
+Proof. exact serialize_parse. Qed.
+Print Assumptions C20_serialize_parse.
+
+(* whatever parses to a serialisable packet is in normal form *)
+Theorem C20_parse_image_nf : forall d p b,
+  parse d = Ok p -> serialize p = Ok b -> nf p = true /\ strs_packet p = p.
+Proof. exact parse_image_nf. Qed.
+Print Assumptions C20_parse_image_nf.
 
 (* a request in any letter case: the mode, option names and option values are
    lower-cased (duplicates collapse in dict order) and nothing else changes *)
